@@ -748,8 +748,9 @@ type attrs struct {
 	uid, pgid             uint32
 	server, domain, domID string
 	logon, pwdLastSet     time.Time
-	sidsExact             []string // exact GetGroupMembershipSIDs, or
-	sidsContain           []string // a subset that must be present
+	logoff                time.Time // zero: not checked (the shipped samples all say "never" for LogoffTime and KickOffTime alike)
+	sidsExact             []string  // exact GetGroupMembershipSIDs, or
+	sidsContain           []string  // a subset that must be present
 	minSIDs               int
 }
 
@@ -886,6 +887,9 @@ func (s *st) checkAttrs(sm sample, p *pac.PACType, where string) {
 	note("LogonDomainID", k.LogonDomainID.String() == w.domID)
 	note("LogOnTime", k.LogOnTime.Time().Equal(w.logon))
 	note("PasswordLastSet", k.PasswordLastSet.Time().Equal(w.pwdLastSet))
+	if !w.logoff.IsZero() {
+		note("LogOffTime", k.LogOffTime.Time().Equal(w.logoff))
+	}
 	sids := k.GetGroupMembershipSIDs()
 	note("GroupMembershipSIDs.independent", sameStrings(sids, expectedSIDs(k)))
 	if w.sidsExact != nil {
@@ -1659,8 +1663,52 @@ func adIfRelevantPAC(pacBytes []byte) types.AuthorizationData {
 	return types.AuthorizationData{{ADType: adtype.ADIfRelevant, ADData: ib}}
 }
 
+// withEditedTimes: the sample with LogoffTime and KickOffTime of its KERB_VALIDATION_INFO rewritten to two different
+// moments (logon hours restricted, no forced logoff), so that what is reported as logoff time can only come from the
+// LogoffTime field.  The FILETIME fields follow the 20 bytes of NDR headers and top-level pointer: LogonTime,
+// LogoffTime, KickOffTime, ...
+func withEditedTimes(sm sample) (sample, bool) {
+	i1 := firstOf(sm.bufs, 1)
+	if i1 < 0 || len(sm.bufs[i1].data) < 44 || sm.want == nil {
+		return sm, false
+	}
+	var k pac.KerbValidationInfo
+	if p, _ := hctx.Guard(func() { k.Unmarshal(append([]byte{}, sm.bufs[i1].data...)) }); p {
+		return sm, false
+	}
+	img := make([]byte, 8)
+	binary.LittleEndian.PutUint32(img, k.LogOffTime.LowDateTime)
+	binary.LittleEndian.PutUint32(img[4:], k.LogOffTime.HighDateTime)
+	if !bytes.Equal(sm.bufs[i1].data[28:36], img) {
+		return sm, false // not where this sample keeps it
+	}
+	ft := func(t time.Time) []byte {
+		v := uint64(t.Unix())*10000000 + 116444736000000000
+		b := make([]byte, 8)
+		binary.LittleEndian.PutUint64(b, v)
+		return b
+	}
+	logoff := time.Date(2024, 3, 4, 18, 0, 0, 0, time.UTC)
+	nb := cloneBufs(sm.bufs)
+	nd := append([]byte{}, sm.bufs[i1].data...)
+	copy(nd[28:36], ft(logoff))
+	copy(nd[36:44], ft(time.Date(2031, 1, 1, 0, 0, 0, 0, time.UTC)))
+	nb[i1].data = nd
+	w := *sm.want
+	w.logoff = logoff
+	out := sm
+	out.name, out.bufs, out.want = sm.name+"+times", nb, &w
+	return out, true
+}
+
 func (s *st) streamTicket(sms []sample) {
 	c := s.c
+	for _, sm := range sms[:2] {
+		if e, ok := withEditedTimes(sm); ok {
+			sms = append([]sample{e}, sms...)
+			c.Count("ticket:sample-with-edited-times")
+		}
+	}
 	sname := types.PrincipalName{NameType: nametype.KRB_NT_PRINCIPAL, NameString: []string{"HTTP", "host.test.gokrb5"}}
 	cname := types.PrincipalName{NameType: nametype.KRB_NT_PRINCIPAL, NameString: []string{"testuser1"}}
 	realm := "TEST.GOKRB5"
@@ -1796,6 +1844,9 @@ func (s *st) verifyAPREQ(sm sample, vname string, ad types.AuthorizationData, is
 				}
 			}
 			good = good && creds.UserName() == w.eff && creds.DisplayName() == w.full
+			if !w.logoff.IsZero() {
+				good = good && adc.LogOffTime.Equal(w.logoff)
+			}
 			c.Check(good, "adcredentials-match-sample", "C19:attrs:verifyapreq", sm.name, vname)
 		}
 		if ok2 && e == nil && !isPAC {
